@@ -15,11 +15,16 @@ TECHNIQUE = (
     "independent log-Lagrange interpolation matrix"
 )
 RULE = (
-    "Synthetic EKOs with 1-4 evolution points (nf 3-6), jittered log grids of 3-8 points with degree 1-4, QCD or QED "
+    "Synthetic EKOs with 1-4 evolution points (nf 3-6) listed in the operator card, in 40% of the cases 1-2 further "
+    "points stored after build (eko[ep] = Operator(...)) and in 1/6 1-2 points added by ekos_product with a second "
+    "synthetic EKO (reference = the operator stored for them), jittered grids of 3-8 points from x_min in [1e-9, "
+    "0.25] (linear grids from 1e-4) with degree 1-4, QCD or QED "
     "theory card, per point a dense normal (or single-entry) operator and an optional error tensor, applied on the "
     "freshly built object or after close + EKO.read. Inputs: table PDFs xf(x,Q2) with a random subset of 0-13 "
     "flavours missing (apply_pdf with/without rotation to the (unified) evolution basis and with/without a target "
-    "grid of 1-6 points mixing grid nodes and interior points; one third of the EKOs built from a card with "
+    "grid: 1-6 points mixing grid nodes and interior points, the grid itself, or the grid with nodes moved by < 8e-6 "
+    "relative or < 1e-8 absolute (same length, np.allclose to it, not equal), each ascending, descending or in "
+    "arbitrary order (results are expected at exactly the requested points in the requested order); one third of the EKOs built from a card with "
     "interpolation_is_log False (interpolation in x, freshly built object only); apply_pdf_flavor with a random "
     "m x 14 rotation and "
     "arbitrary labels), raw replica grids (apply_grids, 1-3 replicas) and wrongly shaped grids (must raise "
@@ -36,8 +41,11 @@ ASSUMPTIONS = [
     "worst deviations 5e-16 S without and 1.03 eps x monomial size with a target grid (1200 cases)",
     "evolution-basis definitions typed from doc/source/theory/FlavorSpace.rst in vf/refs/flavor_ref.py (the integer "
     "tables of eko.basis_rotation themselves are decided by C31)",
-    "target points lie inside [x_min, 1]; a target grid with the length of the internal grid and within np.allclose "
-    "of it but not equal is not generated (that shortcut of get_interpolation belongs to C42)",
+    "target points lie inside [x_min, 1], in any order; the code interpolates at the points in the order given "
+    "(InterpolatorDispatcher.get_interpolation iterates the target grid), also for permutations and np.allclose-"
+    "neighbours of the internal grid",
+    "the returned dictionaries must hold every evolution point stored in the EKO (eko.items()), whether or not the "
+    "operator card lists it",
     "interpolation in ln(x) or, for cards with interpolation_is_log False, in x with the same area/block rule; linear "
     "grids are applied on the freshly built object only, because the archive metadata cannot store the flag (open "
     "known finding C36/C40 'xgrid-log-flag')",
@@ -67,7 +75,9 @@ def strategy(tier):
     @st.composite
     def build(draw):
         n = draw(st.integers(3, 8))
-        xmin = 10 ** draw(st.floats(-4, -0.6))
+        is_log = draw(st.sampled_from([True, True, False]))
+        # logarithmic grids reach down to 1e-9 (np.allclose-type shortcuts bite there), linear ones to 1e-4
+        xmin = 10 ** draw(st.floats(-9 if is_log else -4, -0.6))
         jit = [draw(st.floats(0.6, 1.6)) for _ in range(n - 1)]
         xgrid = bs.make_xgrid(n, xmin, jit)
         deg = draw(st.integers(1, min(4, n - 1)))
@@ -82,22 +92,56 @@ def strategy(tier):
         mode = draw(st.sampled_from(["pdf", "pdf", "pdf", "pdf", "flavor", "flavor", "grids", "badshape"]))
         nmiss = draw(st.sampled_from([0, 1, 2, 3, 5, 9, 13]))
         missing = sorted(draw(st.permutations(list(bs.FLAV)))[:nmiss])
-        target = None
-        if draw(st.integers(0, 2)) > 0:
-            how = draw(st.sampled_from(["mixed", "mixed", "interior", "grid"]))
-            if how == "grid":
+        seen = {(mu, nf) for mu, nf in points}
+        extra = []
+        for _ in range(draw(st.sampled_from([0, 0, 0, 1, 2]))):
+            mu = float(round(10 ** draw(st.floats(0.0, 3.0)), 6))
+            nf = draw(st.integers(3, 6))
+            if (mu, nf) not in seen:
+                seen.add((mu, nf))
+                extra.append([mu, nf])
+        product = []
+        if draw(st.sampled_from([False] * 5 + [True])):
+            for _ in range(draw(st.integers(1, 2))):
+                mu = float(round(10 ** draw(st.floats(0.0, 3.0)), 6))
+                nf = draw(st.integers(3, 6))
+                if (mu, nf) not in seen:
+                    seen.add((mu, nf))
+                    product.append([mu, nf])
+        target, tkind = None, "none"
+        if draw(st.sampled_from([False, True, True])):
+            tkind = draw(st.sampled_from(["mixed", "mixed", "interior", "grid", "perturbed", "perturbed"]))
+            if tkind == "grid":
                 target = list(xgrid)
+            elif tkind == "perturbed":
+                # the grid itself with nodes moved by < 8e-6 relative or < 1e-8 absolute (lowest node only up, highest
+                # only down, order and separation kept): same length, within np.allclose of the grid, not equal
+                target = []
+                for i, x in enumerate(xgrid):
+                    how = draw(st.sampled_from(["keep", "rel", "abs"]))
+                    u = draw(st.floats(0.1, 1.0))
+                    sign = 1.0 if (draw(st.booleans()) or i == 0) and i != n - 1 else -1.0
+                    y = x * (1.0 + sign * u * 8e-6) if how == "rel" else (x + sign * u * 0.9e-8 if how == "abs" else x)
+                    lo = target[-1] * 1.001 if target else 0.0
+                    hi = (xgrid[i + 1] - 1e-8) / 1.001 if i + 1 < n else 1.0
+                    target.append(float(y) if lo < y <= hi else float(x))
+                if target == list(xgrid):
+                    target[0] = float(xgrid[0] * (1.0 + 4e-6))
             else:
                 target = []
                 for _ in range(draw(st.integers(1, 6))):
-                    if how == "mixed" and draw(st.booleans()):
+                    if tkind == "mixed" and draw(st.booleans()):
                         target.append(xgrid[draw(st.integers(0, n - 1))])
                     else:
                         u = draw(st.floats(0.0, 1.0))
                         target.append(float(np.exp(np.log(xgrid[0]) * (1.0 - u))))
                 target = sorted(set(target))
-                if len(target) == n and np.allclose(target, xgrid):
-                    target = target[:-1]
+            # results are delivered in the order of the requested points
+            order = draw(st.sampled_from(["ascending", "ascending", "descending", "shuffled"]))
+            if order == "descending":
+                target = target[::-1]
+            elif order == "shuffled":
+                target = list(draw(st.permutations(target)))
         case = dict(
             seed=draw(st.integers(0, 2**31 - 1)),
             xgrid=xgrid,
@@ -105,6 +149,8 @@ def strategy(tier):
             qed=draw(st.sampled_from([0, 0, 1])),
             init=[float(round(10 ** draw(st.floats(0.0, 1.0)), 6)), draw(st.integers(3, 6))],
             points=points,
+            extra=extra,
+            product=product,
             errs=[draw(st.integers(0, 3)) > 0 for _ in points],
             kind=draw(st.sampled_from(["dense", "dense", "dense", "unit"])),
             unit=[draw(st.integers(0, 13)), draw(st.integers(0, 7)), draw(st.integers(0, 13)), draw(st.integers(0, 7)),
@@ -113,8 +159,9 @@ def strategy(tier):
             mode=mode,
             rotate=draw(st.booleans()),
             target=target,
+            tkind=tkind,
             reopen=draw(st.booleans()),
-            is_log=draw(st.sampled_from([True, True, False])),
+            is_log=is_log,
             nrep=draw(st.integers(1, 3)),
             rot_rows=draw(st.sampled_from([0, 1, 3, 14, 16])),
             bad=draw(st.sampled_from(["2d", "flavours", "xpoints", "swapped", "4d"])),
@@ -206,6 +253,12 @@ def check_case(case):
         op = bs.random_operator(rng, n, case["kind"], case["unit"])
         err = bs.random_error(rng, n) if has_err else None
         tensors[bs.ep_of(p)] = (op, err)
+    extra_tensors = {}
+    for p in case.get("extra", []):
+        extra_tensors[bs.ep_of(p)] = (bs.random_operator(rng, n), bs.random_error(rng, n) if rng.uniform() < 0.6 else None)
+    product_tensors = {}
+    for p in case.get("product", []):
+        product_tensors[bs.ep_of(p)] = (bs.random_operator(rng, n), bs.random_error(rng, n))
     pdf = bs.TablePDF(bs.random_pdf_params(rng, set(case["missing"])))
     mu20 = case["init"][0] ** 2
     rot_m = case["rot_rows"]
@@ -221,9 +274,14 @@ def check_case(case):
         f"interp={'log' if is_log else 'linear'}",
         f"errors={sum(case['errs'])}/{len(points)}",
     ]
+    res.classes += [f"extra-points={len(extra_tensors)}", f"product-points={len(product_tensors)}",
+                    f"xmin={'<1e-6' if xgrid[0] < 1e-6 else '<1e-3' if xgrid[0] < 1e-3 else '>=1e-3'}"]
     if mode in ("pdf", "flavor"):
-        res.classes += [f"rotate={rot_on}", "target=" + ("none" if target is None else
-                                                          "grid" if target == list(xgrid) else f"{min(len(target), 3)}+")]
+        torder = "none" if target is None else ("ascending" if target == sorted(target) else
+                                                "descending" if target == sorted(target, reverse=True) else "shuffled")
+        tk = case.get("tkind", "none" if target is None else "mixed")
+        res.classes += [f"rotate={rot_on}", f"target={tk}", f"target-order={torder}",
+                        f"target-len={'none' if target is None else 'n' if len(target) == n else 'other'}"]
     if mode in ("pdf", "flavor"):
         res.nontrivial = len(points) >= 2 and len(case["missing"]) >= 1 and (rot_on or tgt_on)
     elif mode == "grids":
@@ -237,6 +295,30 @@ def check_case(case):
     try:
         path = d / "eko.tar"
         eko = bs.build_eko(path, theory, operator, tensors)
+        # evolution points stored later, which the operator card does not list
+        from eko.io.struct import Operator
+        for ep, (op, err) in extra_tensors.items():
+            eko[ep] = Operator(operator=np.array(op), error=None if err is None else np.array(err))
+            tensors[ep] = (op, err)
+        if product_tensors:
+            # ... or put there by the library's own ekos_product; the reference is the operator it stored (the product
+            # itself is C44's business)
+            from ekobox import utils
+            fin = None
+            try:
+                _, op_fin = ru.cards(bs.card_case(xgrid, deg, points[0], case["product"], qed=int(qed), is_log=is_log))
+                fin = bs.build_eko(d / "fin.tar", theory, op_fin, product_tensors)
+                try:
+                    utils.ekos_product(eko, fin)
+                except Exception as e:  # noqa: BLE001
+                    res.fail(exc_bucket(f"{ID}/setup/ekos_product", e), repr(e))
+                    return res
+            finally:
+                bs.safe_close(fin)
+            for ep in product_tensors:
+                stored = eko[ep]
+                tensors[ep] = (np.array(stored.operator), None if stored.error is None else np.array(stored.error))
+                del eko[ep]
         if case["reopen"]:
             eko.close()
             eko = EKO.read(path)
